@@ -321,8 +321,12 @@ def minimise(machine: Any, scenario: dict, vclass: tuple, budget_s: float = 45.0
     """
     deadline = time.monotonic() + budget_s
     best = copy.deepcopy(scenario)
-    status, out = execute_scenario(machine, best)
-    best_v = out.get("violation") if status == "ok" else None
+    best_v = None
+    for _ in range(3):  # re-execution is deterministic; retry only guards against a loaded machine
+        status, out = execute_scenario(machine, best)
+        if status == "ok":
+            best_v = out.get("violation")
+            break
     progress = True
     while progress and time.monotonic() < deadline:
         progress = False
